@@ -5,13 +5,41 @@
 
 namespace nano
 {
+namespace detail
+{
+template <class taccumulator, class = void>
+struct has_feature_t : std::false_type
+{
+};
+
+template <class taccumulator>
+struct has_feature_t<taccumulator, std::void_t<decltype(std::declval<const taccumulator&>().m_feature)>>
+    : std::true_type
+{
+};
+
+template <class taccumulator>
+inline constexpr bool has_feature_v = has_feature_t<taccumulator>::value;
+} // namespace detail
+
 ///
 /// \brief min-reduce the given set of accumulators (e.g. per thread) using the `m_score` attribute.
 ///
 template <class taccumulator>
 const auto& min_reduce(const std::vector<taccumulator>& accumulators)
 {
-    const auto op = [](const taccumulator& one, const taccumulator& other) { return one.m_score < other.m_score; };
+    const auto op = [](const taccumulator& one, const taccumulator& other)
+    {
+        if constexpr (detail::has_feature_v<taccumulator>)
+        {
+            // NB: break the ties by the feature index, so that the result doesn't depend on which thread processed it!
+            return one.m_score < other.m_score || (one.m_score == other.m_score && one.m_feature < other.m_feature);
+        }
+        else
+        {
+            return one.m_score < other.m_score;
+        }
+    };
     const auto it = std::min_element(accumulators.begin(), accumulators.end(), op);
     return *it;
 }
